@@ -97,13 +97,21 @@ def run_one(name, timeout_s, needs_stubs, replay_dir):
     log = os.path.join(WORK, "kani_%s.log" % name.replace("::", "_"))
     t0 = time.time()
     cmd = BASE + ["--output-format", "regular", "--verbose", "--harness", name, "--exact"]
+    # own process group, so that a timeout can take cargo-kani, kani-driver and cbmc down together
+    proc = subprocess.Popen(cmd, cwd=KDIR, env=env(), stdout=subprocess.PIPE, stderr=subprocess.STDOUT, text=True, start_new_session=True)
     try:
-        r = subprocess.run(cmd, cwd=KDIR, env=env(), stdout=subprocess.PIPE, stderr=subprocess.STDOUT, text=True, timeout=timeout_s)
-        txt = r.stdout
-    except subprocess.TimeoutExpired as ex:
-        txt = (ex.stdout or b"").decode() if isinstance(ex.stdout, bytes) else (ex.stdout or "")
-        subprocess.run(["pkill", "-f", "--", name.split("::")[-1] + "\\b"], stdout=subprocess.DEVNULL, stderr=subprocess.DEVNULL)
-        d = parse_log(txt); d.update(harness=name, status="inconclusive", reason="timeout after %ds" % timeout_s, wall_s=round(time.time() - t0, 1))
+        txt, _ = proc.communicate(timeout=timeout_s)
+    except subprocess.TimeoutExpired:
+        import signal
+        try:
+            os.killpg(proc.pid, signal.SIGKILL)
+        except Exception:
+            pass
+        try:
+            txt, _ = proc.communicate(timeout=10)
+        except Exception:
+            txt = ""
+        d = parse_log(txt or ""); d.update(harness=name, status="inconclusive", reason="timeout after %ds" % timeout_s, wall_s=round(time.time() - t0, 1))
         return d
     open(log, "w").write(txt)
     d = parse_log(txt)
